@@ -16,6 +16,16 @@
 (* CoinbaseDeletedHashes, CoinbasesDeleted) plus the lockup deletions the  *)
 (* precompile stages in the block batch (evm.Batch).                       *)
 (*                                                                         *)
+(* Part 3 - what the block processor does between two transactions         *)
+(* (core/state_processor.go: StateDB.Finalize(true), Prepare, EVM.Reset):  *)
+(* self-destructed and empty dirty objects become TOMBSTONES that stay in  *)
+(* StateDB.stateObjects and read as non-existent, the journal, the live    *)
+(* snapshots and the refund counter are dropped, access list and transient *)
+(* storage start afresh - and between two blocks (Commit, new StateDB at   *)
+(* the committed root).  A frame of a LATER transaction that re-creates a  *)
+(* tombstoned address and fails must leave the tombstone, not the          *)
+(* committed pre-destruction account.                                      *)
+(*                                                                         *)
 (* The spec is the INTENDED design: everything the property lists is       *)
 (* restored by a revert (the suicide entry remembers the size counter, a   *)
 (* frame snapshot remembers the staged batch deletions, a create frame     *)
@@ -36,6 +46,7 @@ CONSTANTS
     MaxMut,     \* bound on mutating actions per behaviour
     MaxSnap,    \* bound on snapshots / frames pushed per behaviour
     MaxDepth,   \* bound on live nested snapshots / frames
+    MaxTx,      \* bound on transaction boundaries (TxBoundary + BlockBoundary) per behaviour
     FrameAddr,  \* EVM part: the n-th frame pushed in a transaction executes the contract FrameAddr[n]
     NewAddrs,   \* EVM part: addresses CREATE frames deploy to, in order
     XferTo,     \* EVM part: targets of plain value transfers
@@ -60,9 +71,18 @@ view == <<st, ev, jr, revs, nextId, saved, cnt>>
 ----------------------------------------------------------------------------
 \* accounts
 ZeroStor == [s \in Slots |-> 0]
-Absent   == [ex |-> FALSE, bal |-> 0, nonce |-> 0, code |-> 0, stor |-> ZeroStor, size |-> 0, dead |-> FALSE]
+\* tomb: the address holds a TOMBSTONE - a state object Finalize marked `deleted` (self-destructed or empty at the
+\* end of an earlier transaction of this block).  It stays in StateDB.stateObjects (and, if it was committed, in the
+\* trie) until IntermediateRoot, but every getter treats it as non-existent: its projection is Absent.
+\* cst: storage of this state object as committed in the trie (what IntermediateRoot compares against when it
+\* maintains the storage-size counter); only BlockBoundary changes it.
+Absent   == [ex |-> FALSE, bal |-> 0, nonce |-> 0, code |-> 0, stor |-> ZeroStor, size |-> 0, dead |-> FALSE,
+             tomb |-> FALSE, cst |-> ZeroStor]
+Tomb     == [Absent EXCEPT !.tomb = TRUE]
 NewAcct  == [Absent EXCEPT !.ex = TRUE]                       \* newObject(db, addr, Account{})
 IsEmpty(a) == a.nonce = 0 /\ a.bal = 0 /\ a.code = 0 /\ a.size = 0     \* stateObject.empty()
+\* what the getters (Exist, GetBalance, GetNonce, GetCode, GetState, GetSize, HasSuicided) show of an account
+Shown(r) == IF r.tomb THEN Absent ELSE [r EXCEPT !.cst = ZeroStor]
 
 \* journal entries: uniform shape [t, a, s, p, r]
 E(t, a, s, p, r) == [t |-> t, a |-> a, s |-> s, p |-> p, r |-> r]
@@ -93,10 +113,21 @@ Replay(x, j, n) == FoldLeft(Undo, x, Reverse(SubSeq(j, n + 1, Len(j))))
 Mach(x, j) == [x |-> x, j |-> j]
 Jn(m, e)   == [m EXCEPT !.j = Append(@, e)]
 
-\* GetOrNewStateObject -> createObject (prev == nil: account neither live nor in the trie)
-Ensure(m, a) ==
-    IF m.x.acct[a].ex THEN m
+\* createObject when getStateObject found nothing.  prev := getDeletedStateObject(addr): nil (neither in
+\* stateObjects nor in the trie) -> createObjectChange;  a tombstone -> resetObjectChange{prev: tombstone}, so that
+\* a revert puts the TOMBSTONE back (deleting the map entry instead would make the next lookup reload the
+\* pre-destruction account from the trie).
+NewObj(m, a) ==
+    IF m.x.acct[a].tomb THEN Jn([m EXCEPT !.x.acct[a] = NewAcct], E("reset", a, 0, 0, m.x.acct[a]))
     ELSE Jn([m EXCEPT !.x.acct[a] = NewAcct], E("create", a, 0, 0, Absent))
+
+\* GetOrNewStateObject
+Ensure(m, a) == IF m.x.acct[a].ex THEN m ELSE NewObj(m, a)
+
+\* journal.dirties: entry kinds whose dirtied() names the account (resetObjectChange, transient storage, access
+\* list, refund, log, preimage entries return nil).  Finalize looks at dirty addresses only.
+DirtyKinds == {"create", "suicide", "touch", "bal", "nonce", "code", "stor"}
+Dirty(j, a) == \E i \in 1..Len(j) : j[i].a = a /\ j[i].t \in DirtyKinds
 
 \* stateObject.SetBalance
 SetBal(m, a, v) == Jn([m EXCEPT !.x.acct[a].bal = v], E("bal", a, 0, m.x.acct[a].bal, Absent))
@@ -138,7 +169,7 @@ MSuicide(m, a) ==
 
 \* StateDB.CreateAccount -> createObject; an existing account keeps balance and size counter
 MCreateAccount(m, a) ==
-    IF ~m.x.acct[a].ex THEN Jn([m EXCEPT !.x.acct[a] = NewAcct], E("create", a, 0, 0, Absent))
+    IF ~m.x.acct[a].ex THEN NewObj(m, a)
     ELSE Jn([m EXCEPT !.x.acct[a] = [NewAcct EXCEPT !.bal = m.x.acct[a].bal, !.size = m.x.acct[a].size]],
             E("reset", a, 0, 0, m.x.acct[a]))
 
@@ -172,7 +203,8 @@ Vis == VisOf(st, ev)
 \* X = ETXCache, H = CoinbaseDeletedHashes, M = CoinbasesDeleted, D = lockups no longer visible
 B(b) == IF b THEN 1 ELSE 0
 FlatAcct(a, r) == <<a, B(r.ex), r.bal, r.nonce, r.code, r.size, B(r.dead)>> \o r.stor
-Flat(v) == [A  |-> SelectSeq([a \in Addrs |-> FlatAcct(a, v.st.acct[a])], LAMBDA r : v.st.acct[r[1]] # Genesis[r[1]]),
+Flat(v) == [A  |-> SelectSeq([a \in Addrs |-> FlatAcct(a, Shown(v.st.acct[a]))],
+                            LAMBDA r : Shown(v.st.acct[r[1]]) # Shown(Genesis[r[1]])),
             R  |-> v.st.refund,
             L  |-> v.st.logs,
             P  |-> SelectSeq([p \in 1..1 |-> p], LAMBDA p : v.st.preim[p]),
@@ -205,6 +237,8 @@ Mutate(m, rec, res) ==
 
 M0 == Mach(st, jr)
 On(k) == k \in Ops
+\* tx = transaction/block boundaries passed;  done/failed/csoog describe the running transaction (EVM part)
+Cnt0 == [mut |-> 0, snap |-> 0, created |-> 0, tx |-> 0, done |-> FALSE, failed |-> FALSE, csoog |-> FALSE]
 
 ----------------------------------------------------------------------------
 Init ==
@@ -214,11 +248,13 @@ Init ==
              alA    |-> [a \in Addrs |-> FALSE],
              alS    |-> [a \in Addrs |-> [s \in Slots |-> FALSE]],
              tst    |-> [a \in Addrs |-> ZeroStor],
-             preim  |-> [p \in 1..1 |-> FALSE]]
+             preim  |-> [p \in 1..1 |-> FALSE],
+             pend   |-> [a \in Addrs |-> FALSE],      \* StateDB.stateObjectsPending: finalised, not yet written to the trie
+             trie   |-> Genesis]                      \* the account trie (changes at BlockBoundary only)
     /\ ev = [etx |-> <<>>, ldh |-> <<>>, ldm |-> [a \in Addrs |-> FALSE], bdel |-> [a \in Addrs |-> FALSE]]
     /\ jr = <<>> /\ revs = <<>> /\ nextId = 0
     /\ saved = <<>>
-    /\ cnt = [mut |-> 0, snap |-> 0, created |-> 0, done |-> FALSE, failed |-> FALSE, csoog |-> FALSE]
+    /\ cnt = Cnt0
     /\ step = 0 /\ obs = <<"init">> /\ hist = <<>>
 
 \* ---------------- Part 1: the StateDB interface (level a) ----------------
@@ -295,6 +331,7 @@ EmitLog      == On("log") /\ InFrame /\ Exec(MAddLog(M0, Self), ev, Rec("log", S
 \* opCall with value 1 to an account without code: evm.Call creates the account if needed, core.Transfer
 Xfer(to) ==
     /\ On("xfer") /\ InFrame /\ to # Self /\ st.acct[Self].bal >= 1
+    /\ st.acct[to].code = 0          \* (a frame contract qualifies once it is a tombstone: destroyed in an earlier transaction)
     /\ LET m1 == IF st.acct[to].ex THEN M0 ELSE MCreateAccount(M0, to)
        IN Exec(MTransfer(m1, Self, to, 1), ev, Rec("xfer", to, 0, 1, 0), <<"ok">>)
 \* opETX: debit value+fee (1), append to ETXCache
@@ -384,7 +421,67 @@ PopAbort(why) ==
     /\ UNCHANGED <<nextId, saved>>
     /\ Log(Rec("popabort", Self, 0, why, Top.id), <<"ok">>)
 
+\* ---------------- Part 3: transaction and block boundaries ----------------
+NoAL  == [a \in Addrs |-> FALSE]
+NoALS == [a \in Addrs |-> [s \in Slots |-> FALSE]]
+NoTst == [a \in Addrs |-> ZeroStor]
+
+\* StateDB.Finalize(true), core/state/statedb.go: every DIRTY address (journal.dirties) whose object self-destructed or
+\* is empty becomes a tombstone (obj.deleted = true; the object stays in stateObjects, the trie is not touched); the
+\* dirty storage of the others moves to pendingStorage (no visible change); clearJournalAndRefund.
+Finalized(x, j) ==
+    [x EXCEPT !.acct = [a \in Addrs |->
+                          IF x.acct[a].ex /\ Dirty(j, a) /\ (x.acct[a].dead \/ IsEmpty(x.acct[a])) THEN Tomb ELSE x.acct[a]],
+              !.pend = [a \in Addrs |-> @[a] \/ Dirty(j, a)],
+              !.refund = IF j # <<>> THEN 0 ELSE @]
+
+\* between two transactions of a block, core/state_processor.go: applyTransaction ends with statedb.Finalize(true)
+\* (a failed transaction: evm.UndoCoinbasesDeleted - nothing left to undo in the intended design, the failed top
+\* frame restored the staged deletions); TransitionDb has drained evm.ETXCache into the result; the next
+\* transaction starts with statedb.Prepare(hash, i) - fresh access list, fresh transient storage - and
+\* evm.Reset -> ResetCoinbasesDeleted.  Logs and preimages stay (logs are kept per transaction hash), staged
+\* batch deletions stay (block batch), nextRevisionId keeps counting, validRevisions is emptied: live snapshots die.
+\* Journal level ("push" not in Ops): any time no frame is live;  EVM level: after the transaction's top frame ended.
+BoundaryOk ==
+    /\ cnt.tx < MaxTx
+    /\ \A i \in 1..Len(revs) : revs[i].kind = "snap"
+    /\ "push" \in Ops => cnt.done
+
+AfterBoundary(x) ==
+    /\ st' = [x EXCEPT !.alA = NoAL, !.alS = NoALS, !.tst = NoTst]
+    /\ ev' = [ev EXCEPT !.etx = <<>>, !.ldh = <<>>, !.ldm = NoAL]
+    /\ jr' = <<>> /\ revs' = <<>>
+    /\ cnt' = [cnt EXCEPT !.tx = @ + 1, !.done = FALSE, !.failed = FALSE, !.csoog = FALSE]
+    /\ UNCHANGED <<nextId, saved>>
+
+TxBoundary ==
+    /\ On("txend") /\ BoundaryOk
+    /\ AfterBoundary(Finalized(st, jr))
+    /\ Log(Rec("txend", 0, 0, 0, 0), <<"ok">>)
+
+\* end of the block: StateDB.Commit(true) = Finalize(true) + IntermediateRoot + write-out.  IntermediateRoot walks
+\* stateObjectsPending: a tombstone is deleted from the trie, a live object is written (updateTrie adjusts the
+\* storage-size counter by the slots that became non-zero / zero relative to the object's committed storage); an
+\* address that never was dirty at a Finalize of this block is NOT written (resetObjectChange does not dirty: an
+\* object replaced by a bare CreateAccount and never touched again stays what it was in the trie).  The next block
+\* opens a NEW StateDB at the committed root: every account is (re)loaded from the trie, tombstones are gone, logs /
+\* preimages / refund start empty.
+Card(S) == Cardinality(S)
+Written(r) ==
+    IF ~r.ex THEN Absent        \* tombstone (or nothing): deleteStateObject
+    ELSE [r EXCEPT !.size = @ + Card({s \in Slots : r.cst[s] = 0 /\ r.stor[s] # 0})
+                              - Card({s \in Slots : r.cst[s] # 0 /\ r.stor[s] = 0}),
+                   !.cst = r.stor]
+BlockBoundary ==
+    /\ On("blockend") /\ BoundaryOk
+    /\ LET f  == Finalized(st, jr)
+           tr == [a \in Addrs |-> IF f.pend[a] THEN Written(f.acct[a]) ELSE f.trie[a]]
+       IN AfterBoundary([f EXCEPT !.acct = tr, !.trie = tr, !.pend = NoAL,
+                                  !.logs = <<>>, !.preim = [p \in 1..1 |-> FALSE]])
+    /\ Log(Rec("blockend", 0, 0, 0, 0), <<"ok">>)
+
 Next ==
+    \/ TxBoundary \/ BlockBoundary
     \/ \E a \in Addrs :
          \/ \E v \in Amts : AddBalance(a, v) \/ SubBalance(a, v)
          \/ SetBalance(a, 0)
@@ -409,7 +506,7 @@ Spec == Init /\ [][Next]_vars
 \* Properties
 
 TypeOK ==
-    /\ \A a \in Addrs : st.acct[a].bal >= 0 /\ (~st.acct[a].ex => st.acct[a] = Absent)
+    /\ \A a \in Addrs : st.acct[a].bal >= 0 /\ (~st.acct[a].ex => st.acct[a] \in {Absent, Tomb})
     /\ Len(saved) = nextId
     /\ \A i \in 1..Len(revs) : revs[i].jlen <= Len(jr) /\ revs[i].etxlen <= Len(ev.etx)
     /\ \A i \in 1..(Len(revs) - 1) : revs[i].id < revs[i + 1].id /\ revs[i].jlen <= revs[i + 1].jlen
@@ -445,5 +542,14 @@ AccessListWellFormed == \A a \in Addrs, s \in Slots : st.alS[a][s] => st.alA[a]
 \* do not use VIEW, so that behaviours that differ only in what was reverted earlier stay distinct.
 EmitHist ==
     IF hist'[Len(hist')].op \in {"revert", "popabort"} \/ (cnt'.done /\ ~cnt.done)
+    THEN PrintT("@@" \o ToJson(hist')) ELSE TRUE
+\* multi-transaction universes: only behaviours that crossed a boundary (the others are emitted by EmitHist in
+\* the single-transaction universes), plus every behaviour that ends with a boundary which nothing emitted can follow
+EmitHistMT ==
+    IF (cnt.tx > 0 /\ (hist'[Len(hist')].op \in {"revert", "popabort"} \/ (cnt'.done /\ ~cnt.done)))
+       \/ (cnt'.tx > cnt.tx /\ (cnt'.tx = MaxTx \/ cnt.snap = MaxSnap))
+       \* a call on a tombstone whose outcome shows in the return value only (such a step does not change the state,
+       \* so under VIEW no emitted behaviour is guaranteed to pass through it)
+       \/ (LastRec.op = "suicide" /\ st.acct[LastRec.a].tomb)
     THEN PrintT("@@" \o ToJson(hist')) ELSE TRUE
 =============================================================================
